@@ -14,6 +14,7 @@ func init() {
 		&slip.FuncDoc{
 			Name: "list*",
 			Args: []*slip.DocArg{
+				{Name: "object", Type: "object"},
 				{Name: "&rest"},
 				{Name: "objects", Type: "object"},
 			},
